@@ -71,6 +71,9 @@ impl Stats {
                     Outcome::Pass => "pass",
                 };
                 self.bump(&format!("{kind}:{what}"), 1);
+                if c.eager {
+                    self.bump(&format!("{kind}:panic_before_future_returned"), 1);
+                }
             }
             let slow = c.exit.is_some_and(|x| x - c.enter > 1_000_000_000);
             if slow {
